@@ -23,9 +23,16 @@ assert len(MAP) == 15
 _UNMAP = {v: k for k, v in MAP.items()}
 _UNQ_RE = re.compile("|".join(re.escape(v) for v in sorted(_UNMAP, key=len, reverse=True)))
 ENTITY_RE = re.compile(r"&#?\w+;")
-CLOSE_RE = re.compile(r"(?i)</nowiki\s*>")
-OPEN_RE = re.compile(r"(?i)<nowiki\s*>")
-DELIM_RE = re.compile(r"(?i)<nowiki\s*/?>|</nowiki\s*>|<!--|-->")
+# "the closing tag" of the statement: the letters n-o-w-i-k-i in either ASCII case, optional ASCII blanks, ">".
+# re.ASCII on purpose: under Python's Unicode case folding "(?i)nowiki" also matches U+212A KELVIN SIGN,
+# U+0131 DOTLESS I, U+0130 and "\s" matches U+00A0 / U+2003 ...; those spellings are NOT the tag.
+CLOSE_RE = re.compile(r"(?ai)</nowiki\s*>")
+OPEN_RE = re.compile(r"(?ai)<nowiki\s*>")
+DELIM_RE = re.compile(r"(?ai)<nowiki\s*/?>|</nowiki\s*>|<!--|-->")
+# near-miss spellings: matched by the Unicode-insensitive pattern but not the tag (see above)
+NEAR_CLOSE_RE = re.compile(r"(?i)</nowiki\s*>")
+NEAR_CLOSERS = ["</now\u0131k\u0131>", "</nowi\u212ai>", "</NOW\u0130KI>", "</nowiki\u00a0>", "</nowiki\u2003>", "</nowiki\u0085>",
+                "</now\u0131ki >", "</nowiKi\u3000>".replace("K", "\u212a")]
 PLACEHOLDER_RE = re.compile("[\U0010203D-\U0010FFF0]")
 
 
@@ -153,9 +160,10 @@ def ddmin(seq, failing, max_evals=1500):
     return seq
 
 
-_SHAPE_TOK = re.compile(r"(?i)(<nowiki\s*/>)|(<nowiki\s*>)|(</nowiki\s*>)|(<!--)|(-->)|(\n)|([\U0010203D-\U0010FFF0])|"
+_SHAPE_TOK = re.compile(r"(?a:(?i:(<nowiki\s*/>)|(<nowiki\s*>)|(</nowiki\s*>)))|(<!--)|(-->)|(\n)|([\U0010203D-\U0010FFF0])|"
+                        r"((?i:</nowiki\s*>))|((?i:<nowiki\s*/?>))|"
                         r"([={}\[\]|*#:;!<>'\"_&/-])|([ \t\r]+)|(.)", re.S)
-_NAMES = ["ns", "no", "nc", "co", "cc", "nl", "PH"]
+_NAMES = ["ns", "no", "nc", "co", "cc", "nl", "PH", "nc-nonascii-spelling", "no-nonascii-spelling"]
 
 
 def shape(s: str, limit=14) -> str:
@@ -164,11 +172,11 @@ def shape(s: str, limit=14) -> str:
     out = []
     for m in _SHAPE_TOK.finditer(s):
         g = m.lastindex
-        if g <= 7:
+        if g <= 9:
             t = _NAMES[g - 1]
-        elif g == 8:
-            t = m.group(8)
-        elif g == 9:
+        elif g == 10:
+            t = m.group(10)
+        elif g == 11:
             t = "sp"
         else:
             t = "x"
